@@ -140,6 +140,20 @@ Definition handle_analysis (cmd : string) (args : list sexp) : option string :=
         end
     | _ => None
     end
+  else if cmd =? "analyze_with" then
+    (* Analyzer([...]) with an explicit list of analyses (e.g. the opt-in ml.MLAllowlist) *)
+    match args with
+    | [names; SList l; protos; stds; reprs] =>
+        match strs_of_sexp names, ops_of_sexps l, protos_of_sexp protos, strs_of_sexp stds, reprs_of_sexp reprs with
+        | Some ns, Some p, Some pr, Some sl, Some tbl =>
+            Some (match run p with
+                  | Ok s => "OK " ++ show_analysis (run_all (lookup_repr tbl) (fun m => mem_str m sl) ns pr s [])
+                  | Err e => "ERR " ++ err_name e
+                  end)
+        | _, _, _, _, _ => Some "!bad-args"
+        end
+    | _ => None
+    end
   else if cmd =? "report" then
     match args with
     | [SList l; protos; stds; reprs; order] =>
